@@ -81,6 +81,8 @@ func (w *World) setLogging() {
 	lvl := fastlog.LevelInfo
 	if w.Cfg.Debug {
 		lvl = fastlog.LevelDebug
+	} else if w.Cfg.LogErrorsOnly {
+		lvl = fastlog.LevelError
 	}
 	packet.Logger.SetLevel(lvl)
 	arp.Logger.SetLevel(lvl)
